@@ -245,3 +245,46 @@ fn c07_read_message_case() {
         _ => { assert!(false); }
     }
 }
+
+/// with storage header: the 16 storage bytes are part of the delivered slice and the length
+/// field is read behind them
+pub fn reader_case_storage<const N: usize, const C: usize>(l1: u16, intr_at: usize) {
+    let mut data: [u8; N] = kani::any();
+    if N >= 20 {
+        let b = l1.to_be_bytes();
+        data[18] = b[0];
+        data[19] = b[1];
+    }
+    let src = Src::<N, C> { data, len: N, pos: 0, intr_at, calls: 0 };
+    let mut reader = DltMessageReader::with_capacity(32, 32, src, true);
+    let stream = &data[..];
+    let total = 16 + l1 as usize;
+    match reader.next_message_slice() {
+        Ok(s) => {
+            if s.len() == 0 {
+                assert!(N < 20);
+            } else {
+                assert!(N >= 20 && l1 >= 4 && total <= N);
+                assert!(bytes_eq(s, &stream[..total]));
+            }
+        }
+        Err(_) => { assert!(N >= 20 && (l1 < 4 || total > N)); }
+    }
+}
+
+macro_rules! reader_sto_harness {
+    ($name:ident, $n:expr, $c:expr, $l1:expr, $intr:expr) => {
+        #[kani::proof]
+        #[kani::stub(alloc::fmt::format, fmt_stub)]
+        #[kani::unwind(40)]
+        fn $name() {
+            reader_case_storage::<$n, $c>($l1, $intr);
+        }
+    };
+}
+// (with storage header only whole-buffer reads without interrupt finish: 22 bytes at 5 or 12 per
+// read, or one interrupt, ran into the 400-600 s limit)
+reader_sto_harness!(c07_sto_n24_c100_l4, 24, 100, 4, 99);
+reader_sto_harness!(c07_sto_n19_c100, 19, 100, 0, 99);
+reader_sto_harness!(c07_sto_n21_c100_l8, 21, 100, 8, 99);
+reader_sto_harness!(c07_sto_n22_c100_l3, 22, 100, 3, 99);
